@@ -26,7 +26,7 @@ for d in sorted((ROOT / "seeded").iterdir()):
     conf = (d / "confirm.txt").read_text().splitlines() if (d / "confirm.txt").exists() else []
     c = dict(re.findall(r"(\w+)=(\S+)", conf[0])) if conf else {}
     caught = (d / "caught.txt").read_text().splitlines() if (d / "caught.txt").exists() else []
-    viol = sorted({re.search(r"replay=(\S+?)\.json", l).group(1) for l in caught if l.startswith("VIOLATION") and "replay=" in l})
+    viol = sorted({re.search(r"replay=(\S+)\.json(\s|$)", l).group(1) for l in caught if l.startswith("VIOLATION") and "replay=" in l})
     suite_ok = c.get("suite_patched_rc") == "0"
     flaky = (not suite_ok) and any("Timeout waiting for execute reply" in l or "CellTimeoutError" in l for l in (d / "suite_patched.log").read_text().splitlines()) if (d / "suite_patched.log").exists() else False
     meta = {
